@@ -18,7 +18,7 @@ UNITS = {
     'msgpack':    ('msgpack.cpp',    ['jsoncons_ext/msgpack/']),
     'ubjson':     ('ubjson.cpp',     ['jsoncons_ext/ubjson/']),
     'bson':       ('bson.cpp',       ['jsoncons_ext/bson/']),
-    'csv':        ('csv.cpp',        ['jsoncons_ext/csv/']),
+    'csv':        ('csv.cpp',        ['jsoncons_ext/csv/', 'jsoncons/json_encoders.hpp', 'jsoncons/json_options.hpp']),
     'toon':       ('toon.cpp',       ['jsoncons_ext/toon/']),
     'jsonpath':   ('jsonpath.cpp',   ['jsoncons_ext/jsonpath/']),
     'jmespath':   ('jmespath.cpp',   ['jsoncons_ext/jmespath/']),
@@ -51,7 +51,7 @@ _tree_hash = None
 def tree_hash():
     global _tree_hash
     if _tree_hash is None:
-        _tree_hash = _sha([(INCLUDE, None), (DRIVERS, '.cpp'), (PLUGIN_SRC, None)])
+        _tree_hash = _sha([(INCLUDE, None), (DRIVERS, '.cpp'), (PLUGIN_SRC, None)]) + hashlib.sha256(repr(sorted(UNITS.items())).encode()).hexdigest()[:6]
     return _tree_hash
 
 def cache_root():
